@@ -173,7 +173,7 @@ theorem so3_dr_expinv_series_bound (a : Vec ℝ 3) (h0 : 0 < sqNorm a) (h1 : sqN
   have hb := S1invA_series_bound h0 h1
   have e : (SO3.dr_expinv a) i j - (C04Alg.poly2 (SO3.hat a) (1 / 2) (C04SO3.Ainv (sqNorm a))) i j
       = (SO3.S1invA (sqNorm a) - C04SO3.Ainv (sqNorm a)) * (mmul (SO3.hat a) (SO3.hat a)) i j := by
-    simp only [SO3.dr_expinv, SO3.calc_S1inv, SO3.ad, madd, memoM_eq, Mat.of_get, C04Alg.poly2,
+    simp only [SO3.dr_expinv, SO3.calc_S1inv, SO3.ad, madd, memoM_eq, Lin.mmul_msmul_get, Mat.of_get, C04Alg.poly2,
       Nat.cast_ofNat]
     ring
   rw [e, abs_mul]
@@ -187,7 +187,7 @@ theorem se2_dr_expinv_series_bound (a : Vec ℝ 3) (h0 : a 2 ≠ 0) (h1 : a 2 * 
   have hb := drExpinvA_series_bound h0 h1
   have e : (SE2.dr_expinv a) i j - (C04Alg.poly2 (SE2.ad a) (1 / 2) (C04SE2.Ae (a 2))) i j
       = (SE2.drExpinvA (a 2) (a 2 * a 2) - C04SE2.Ae (a 2)) * (mmul (SE2.ad a) (SE2.ad a)) i j := by
-    simp only [SE2.dr_expinv, memoM_eq, Mat.of_get, C04Alg.poly2, Nat.cast_ofNat]
+    simp only [SE2.dr_expinv, memoM_eq, Lin.mmul_msmul_get, Mat.of_get, C04Alg.poly2, Nat.cast_ofNat]
     ring
   rw [e, abs_mul]
   exact mul_le_mul_of_nonneg_right hb (abs_nonneg _)
